@@ -4,3 +4,4 @@
 tier=${1:-quick}
 cd /verif
 ls seeded | xargs -P 6 -I{} sh -c 'p=$(echo {} | cut -d- -f1); tools/seedrun.sh /verif/seeded/{}/patch.diff '"$tier"' $p 2>&1 | grep -v conda | sed "s#^#{} #"'
+rm -rf /root/.cache/go-build-verif-scratch
